@@ -93,6 +93,22 @@ def _expr(E, s, x, y, A, xd, yd, Ad):
     if e == 'scale_by_sum':
         v = x.sum()
         return _weighted(E, 'w', (v * y + x / 2.0).full()), _weighted(E, 'w', tn.sum(xd) * yd + xd / 2.0)
+    if e == 'add_tracked_scalar':
+        # TT +/- a one-element tensor that depends on the tracked cores (the solver is free to make it zero)
+        v = tt.dot(x, y)
+        vd = tn.sum(xd * yd)
+        w = x.sum()
+        return _weighted(E, 'w', ((x + v) - w).full()), _weighted(E, 'w', (xd + vd) - tn.sum(xd))
+    if e == 'copy_forms':
+        # argument forms that return copies must stay in the graph: kron with None, ** None, Ellipsis index, unary plus, clone
+        a1 = tt.dot(tt.kron(x, None), y).reshape([])
+        a2 = tt.dot(tt.kron(None, x), x).reshape([])
+        a3 = tt.dot(x ** None, y).reshape([])
+        a4 = tt.dot(x[...], y).reshape([])
+        a5 = tt.dot(+x, y).reshape([])
+        a6 = tt.dot(x.clone(), y).reshape([])
+        dxy = tn.sum(xd * yd)
+        return a1 + 2.0 * a2 + 3.0 * a3 + 5.0 * a4 + 7.0 * a5 + 11.0 * a6, dxy + 2.0 * tn.sum(xd * xd) + (3.0 + 5.0 + 7.0 + 11.0) * dxy
     if e == 'depth3':
         r = ((x + y) * x - 2.0 * y)
         v = tt.dot(r, x).reshape([])
